@@ -5,8 +5,11 @@ store each change with tools/ingest_seed.py, copy the notes, remove the worktree
 import glob, json, os, re, subprocess, sys
 V = os.path.dirname(os.path.dirname(os.path.abspath(__file__)))
 prefix = sys.argv[1]
+only = [a.lower() for a in sys.argv[2:]]  # optional: cNN ... (only these; their worktrees are removed afterwards)
 for wt in sorted(glob.glob(prefix + "c[0-9][0-9]")):
     pid = "C" + wt[-2:]
+    if only and pid.lower() not in only:
+        continue
     mp = os.path.join(wt, "OUT", "meta.json")
     if not os.path.exists(mp):
         print("NO META", wt)
@@ -16,6 +19,7 @@ for wt in sorted(glob.glob(prefix + "c[0-9][0-9]")):
     except ValueError as e:
         print("BAD META", wt, e)
         continue
+    allok = True
     for m in metas:
         name = re.sub(r"[^a-z0-9_]+", "_", str(m.get("name", "change%s" % m.get("k"))).lower()).strip("_")
         if not name.startswith(pid.lower()):
@@ -26,8 +30,12 @@ for wt in sorted(glob.glob(prefix + "c[0-9][0-9]")):
         if m.get("pkgdir"):
             args.append(m["pkgdir"].strip("/"))
         r = subprocess.run(args, capture_output=True, text=True)
-        print(pid, name, (r.stdout + r.stderr).strip().split("\n")[-1][:200])
+        ok = r.returncode == 0
+        allok = allok and ok
+        print(pid, name, "stored" if ok else "FAIL: " + (r.stdout + r.stderr).strip()[-600:])
     n = os.path.join(wt, "OUT", "notes.md")
     if os.path.exists(n):
         import shutil
         shutil.copy(n, os.path.join(V, "seeded", "notes_%s_%s.md" % (os.path.basename(prefix.rstrip("_")), pid.lower())))
+    if only and allok:
+        subprocess.run(["git", "-C", "/repo", "worktree", "remove", "--force", wt], capture_output=True)
